@@ -1161,6 +1161,8 @@ func faultyRound(panicAt, waitMs int) (FaultyCase, []vh.Violation) {
 		n := newNode([]string{"good", "bad"}, conf, "")
 		ask := askFn(n.sys.FutureAsk)
 		c.Before = n.lookup(ask, "u1", "good", nil)
+		// a fire-and-forget request (Tell: no sender to answer) for a pair that is not known yet must not hurt the manager either
+		n.sys.Tell(n.manager, cluster.VerifActorOfRequest("t1", "good"))
 		for k := 0; k < c.PanicAt; k++ {
 			c.Bad = append(c.Bad, n.lookup(ask, fmt.Sprintf("b%d", k), "bad", nil))
 		}
@@ -1171,7 +1173,7 @@ func faultyRound(panicAt, waitMs int) (FaultyCase, []vh.Violation) {
 		var v []vh.Violation
 		sig := map[string]string{"fn": "onActorOf", "class": "faulty-ability-provider"}
 		if c.Accidents > 0 || c.After.K == "crash" {
-			v = append(v, vh.Violation{Kind: "drill:onActorOf:manager-failed-faulty-provider", Detail: fmt.Sprintf("the provider of ability 'bad' panicked on invocation %d and the cluster manager itself failed (%d accident(s): %s)", c.PanicAt, c.Accidents, c.Reason), Case: c, Sig: sig})
+			v = append(v, vh.Violation{Kind: "drill:onActorOf:manager-failed-faulty-provider", Detail: fmt.Sprintf("after a sender-less request for a new pair and a request whose ability provider panicked on invocation %d the cluster manager itself had failed (%d accident(s): %s)", c.PanicAt, c.Accidents, c.Reason), Case: c, Sig: sig})
 		} else if c.Before.K == "ref" && (c.After.K != "ref" || c.After.Name != c.Before.Name || c.After.Inst != c.Before.Inst) {
 			v = append(v, vh.Violation{Kind: "drill:onActorOf:unrelated-pair-recreated-after-faulty-provider", Detail: fmt.Sprintf("pair (u1, good) was answered %+v before and %+v after a request whose ability provider panicked", c.Before, c.After), Case: c, Sig: sig})
 		}
